@@ -142,4 +142,367 @@ theorem encode_add (d : AMap Node) (name : String) (v : Node) :
   rw [this, encode_setN]
   simp [toSteps]
 
+/-! ### update in place (the shape of RemoveAt and of the list edits) -/
+
+/-- apply `f` to the node at a step path; nothing there: unchanged (the `Node` twin of `Plain.updAt`) -/
+def updN (f : Node → Node) : Node → List PSeg → Node
+  | n, [] => f n
+  | .cont m, .key k :: r =>
+    match AMap.get? m k with
+    | some c => .cont (AMap.insert m k (updN f c r))
+    | none => .cont m
+  | .list xs, .idx i :: r =>
+    match xs[i]? with
+    | some c => .list (xs.set i (updN f c r))
+    | none => .list xs
+  | n, _ :: _ => n
+
+/-- the node at a step path (the `Node` twin of `Plain.getAt`) -/
+def getN : Node → List PSeg → Option Node
+  | n, [] => some n
+  | .cont m, .key k :: r =>
+    match AMap.get? m k with
+    | some c => getN c r
+    | none => none
+  | .list xs, .idx i :: r =>
+    match xs[i]? with
+    | some c => getN c r
+    | none => none
+  | _, _ :: _ => none
+
+theorem encode_updN {f : Node → Node} {F : Val → Val} (hf : ∀ x, encodeNode (f x) = F (encodeNode x)) :
+    ∀ (p : List PSeg) (n : Node), encodeNode (updN f n p) = updAt F (encodeNode n) p
+  | [], n => by simp [updN, updAt, hf]
+  | .key k :: r, .cont m => by
+    simp only [updN, updAt, encodeNode, encodeKvs_get?]
+    cases AMap.get? m k with
+    | none => rfl
+    | some c => simp [encodeNode, encodeKvs_insert, encode_updN hf r c]
+  | .key k :: r, .leaf _ => by simp [updN, updAt, encodeNode]
+  | .key k :: r, .list _ => by simp [updN, updAt, encodeNode]
+  | .idx i :: r, .list xs => by
+    simp only [updN, updAt, encodeNode, encodeList_eq_map, List.getElem?_map]
+    cases xs[i]? with
+    | none => simp [encodeNode, encodeList_eq_map]
+    | some c => simp [encodeNode, encodeList_eq_map, List.map_set, encode_updN hf r c]
+  | .idx i :: r, .leaf _ => by simp [updN, updAt, encodeNode]
+  | .idx i :: r, .cont _ => by simp [updN, updAt, encodeNode]
+
+theorem encode_getN : ∀ (p : List PSeg) (n : Node), (getN n p).map encodeNode = getAt (encodeNode n) p
+  | [], n => by simp [getN, getAt]
+  | .key k :: r, .cont m => by
+    simp only [getN, getAt, encodeNode, encodeKvs_get?]
+    cases AMap.get? m k with
+    | none => rfl
+    | some c => simp [encode_getN r c]
+  | .key k :: r, .leaf _ => by simp [getN, getAt, encodeNode]
+  | .key k :: r, .list _ => by simp [getN, getAt, encodeNode]
+  | .idx i :: r, .list xs => by
+    simp only [getN, getAt, encodeNode, encodeList_eq_map, List.getElem?_map]
+    cases xs[i]? with
+    | none => rfl
+    | some c => simp [encode_getN r c]
+  | .idx i :: r, .leaf _ => by simp [getN, getAt, encodeNode]
+  | .idx i :: r, .cont _ => by simp [getN, getAt, encodeNode]
+
+theorem set_same {α : Type} {xs : List α} {i : Nat} {x : α} (h : xs[i]? = some x) : xs.set i x = xs := by
+  obtain ⟨hi, rfl⟩ := List.getElem?_eq_some_iff.mp h
+  exact List.set_getElem_self hi
+
+/-- index groups that lead to a node: writing `W` there is the update along the index steps -/
+theorem setSlot_updN {f : Node → Node} : ∀ (is : List Nat) (c w W : Node) (r : List PSeg),
+    walkIdx (some c) is = some w → W = updN f w r → setSlot (some c) is W = updN f c (is.map .idx ++ r)
+  | [], c, w, W, r, hw, hW => by
+    simp only [walkIdx_nil, Option.some.injEq] at hw
+    subst hw
+    simp [setSlot, hW]
+  | i :: is, .leaf _, w, W, r, hw, _ => by simp [walkIdx] at hw
+  | i :: is, .cont _, w, W, r, hw, _ => by simp [walkIdx] at hw
+  | i :: is, .list xs, w, W, r, hw, hW => by
+    simp only [walkIdx] at hw
+    cases hx : xs[i]? with
+    | none => rw [hx, walkIdx_none] at hw; cases hw
+    | some x =>
+      rw [hx] at hw
+      have hi : i < xs.length := (List.getElem?_eq_some_iff.mp hx).1
+      rw [setSlot_cons]
+      simp only [listOf, padTo_eq_self (Nat.succ_le_of_lt hi), hx, List.map_cons, List.cons_append, updN]
+      rw [setSlot_updN is x w W r hw hW]
+
+/-- index groups that lead nowhere: the update along them changes nothing -/
+theorem updN_idx_none {f : Node → Node} : ∀ (is : List Nat) (c : Node) (r : List PSeg),
+    walkIdx (some c) is = none → updN f c (is.map .idx ++ r) = c
+  | [], c, r, hw => by simp [walkIdx] at hw
+  | i :: is, .leaf _, r, _ => by simp [updN]
+  | i :: is, .cont _, r, _ => by simp [updN]
+  | i :: is, .list xs, r, hw => by
+    simp only [walkIdx] at hw
+    simp only [List.map_cons, List.cons_append, updN]
+    cases hx : xs[i]? with
+    | none => rfl
+    | some x =>
+      rw [hx] at hw
+      simp only
+      rw [updN_idx_none is x r hw, set_same hx]
+
+/-- ONE component of a string path, as every string-path function of the builder handles it —
+    `Child(p)`, then put back `W` of what was found — is the structured update along the steps of
+    that component, continued by `r` (sorted maps: putting back what is there is the identity). -/
+theorem comp_updN {f : Node → Node} (kvs : AMap Node) (hs : AMap.Sorted kvs) (p : String) (r : List PSeg)
+    (W : Node → Node) (hW : ∀ w, child kvs p = some w → W w = updN f w r) :
+    Node.cont (match child kvs p with
+      | some w => add kvs p (W w)
+      | none => kvs) = updN f (.cont kvs) (segOfComp p ++ r) := by
+  rw [segOfComp_eq, List.cons_append]
+  simp only [updN]
+  rw [child_eq_walk] at hW ⊢
+  cases hg : AMap.get? kvs (segBase p) with
+  | none => simp [walkIdx_none]
+  | some c =>
+    rw [hg] at hW
+    simp only
+    cases hw : walkIdx (some c) (segIdx p) with
+    | none =>
+      simp only
+      rw [updN_idx_none _ c r hw, insert_put_back hs hg]
+    | some w =>
+      simp only
+      rw [add_eq_insert, hg, setSlot_updN _ c w (W w) r hw (hW w hw)]
+
+/-- the same with the code's "continue only in a container" shape (`ancestorOf(create=false)`) -/
+theorem comp_cont_updN {f : Node → Node} (kvs : AMap Node) (hs : AMap.Sorted kvs) (p : String) (r : List PSeg)
+    (W : AMap Node → AMap Node) (hW : ∀ c, child kvs p = some (.cont c) → Node.cont (W c) = updN f (.cont c) r)
+    (hr : ∀ w, (∀ c, w ≠ .cont c) → updN f w r = w) :
+    Node.cont (match child kvs p with
+      | some (.cont c) => add kvs p (.cont (W c))
+      | _ => kvs) = updN f (.cont kvs) (segOfComp p ++ r) := by
+  rw [← comp_updN kvs hs p r (fun w => match w with | .cont c => .cont (W c) | w => w)]
+  · cases hc : child kvs p with
+    | none => rfl
+    | some w =>
+      cases w with
+      | cont c => rfl
+      | leaf v => simp only; rw [add_put_back hs hc]
+      | list xs => simp only; rw [add_put_back hs hc]
+  · intro w hw
+    cases w with
+    | cont c => exact hW c hw
+    | leaf v => exact (hr _ (by simp)).symm
+    | list xs => exact (hr _ (by simp)).symm
+
+/-- a key step does nothing on a leaf or a list -/
+theorem updN_key_noncont {f : Node → Node} {r : List PSeg} (hk : KeyHead r) (hne : r ≠ []) (w : Node)
+    (hw : ∀ c, w ≠ .cont c) : updN f w r = w := by
+  cases r with
+  | nil => exact absurd rfl hne
+  | cons s r =>
+    cases s with
+    | idx i => exact absurd hk (by simp [KeyHead])
+    | key k =>
+      cases w with
+      | cont c => exact absurd rfl (hw c)
+      | leaf _ => simp [updN]
+      | list _ => simp [updN]
+
+theorem toSteps_ne_nil {cs : List String} (h : cs ≠ []) : toSteps cs ≠ [] := by
+  cases cs with
+  | nil => exact absurd rfl h
+  | cons c cs => simp [toSteps_cons]
+
+/-- stage 1 for `updateAtSegs` (ListBuilder edits through `Lookup`) -/
+theorem updateAtSegs_updN (f : Node → Node) : ∀ (cs : List String) (kvs : AMap Node), (Node.cont kvs).Valid →
+    cs ≠ [] → Node.cont (updateAtSegs kvs f cs) = updN f (.cont kvs) (toSteps cs)
+  | [], _, _, h => absurd rfl h
+  | [c], kvs, hv, _ => by
+    have := comp_updN (f := f) kvs hv.sorted c [] f (fun w _ => by simp [updN])
+    simp only [List.append_nil] at this
+    simp only [updateAtSegs, toSteps, List.flatMap_cons, List.flatMap_nil, List.append_nil]
+    rw [← this]
+    cases child kvs c <;> rfl
+  | c :: d :: ds, kvs, hv, _ => by
+    have := comp_cont_updN (f := f) kvs hv.sorted c (toSteps (d :: ds)) (fun c' => updateAtSegs c' f (d :: ds))
+      (fun c' hc => updateAtSegs_updN f (d :: ds) c' (child_valid hv hc) (by simp))
+      (updN_key_noncont (keyHead_toSteps _) (toSteps_ne_nil (by simp)))
+    have e : toSteps (c :: d :: ds) = segOfComp c ++ toSteps (d :: ds) := by simp [toSteps]
+    rw [e, ← this]
+    simp only [updateAtSegs]
+    cases child kvs c with
+    | none => rfl
+    | some w => cases w <;> rfl
+
+/-! ### remove -/
+
+def onCont (g : AMap Node → AMap Node) : Node → Node
+  | .cont m => .cont (g m)
+  | n => n
+
+/-- delete the last key from the container at the parent path (the `Node` twin of `Plain.specRemove`) -/
+def removeN (n : Node) (p : List PSeg) : Node :=
+  match p.getLast? with
+  | some (.key k) => updN (onCont fun m => AMap.erase m k) n p.dropLast
+  | _ => n
+
+theorem encode_onCont_erase (k : String) (x : Node) :
+    encodeNode (onCont (fun m => AMap.erase m k) x) = onObj (fun m => AMap.erase m k) (encodeNode x) := by
+  cases x <;> simp [onCont, onObj, encodeNode, encodeKvs_erase]
+
+theorem encode_removeN (n : Node) (p : List PSeg) : encodeNode (removeN n p) = specRemove (encodeNode n) p := by
+  unfold removeN specRemove
+  cases p.getLast? with
+  | none => rfl
+  | some s =>
+    cases s with
+    | idx i => rfl
+    | key k => exact encode_updN (encode_onCont_erase k) _ _
+
+theorem removeAtSegs_cons2 (kvs : AMap Node) (p : String) {rest : List String} (h : rest ≠ []) :
+    removeAtSegs kvs (p :: rest) =
+      match child kvs p with
+      | some (.cont c) => add kvs p (.cont (removeAtSegs c rest))
+      | _ => kvs := by
+  cases rest with
+  | nil => exact absurd rfl h
+  | cons q rest => rfl
+
+/-- in a valid container no literal key ends in an index group -/
+theorem get?_none_of_idx {kvs : AMap Node} (hv : (Node.cont kvs).Valid) {c : String} (h : segIdx c ≠ []) :
+    AMap.get? kvs c = none := by
+  cases hg : AMap.get? kvs c with
+  | none => rfl
+  | some x =>
+    exfalso
+    obtain ⟨_, hk⟩ := hv
+    cases hk with
+    | cont hk1 _ => exact h (segIdx_of_noSuffix (hk1 _ (AMap.mem_of_get? hg)))
+
+/-- a remove path whose last component ends in an index group removes nothing (valid documents):
+    `delete` on a literal key that no document built through the API has -/
+theorem removeAtSegs_idx_last {last : String} (hl : segIdx last ≠ []) : ∀ (ps : List String) (kvs : AMap Node),
+    (Node.cont kvs).Valid → removeAtSegs kvs (ps ++ [last]) = kvs
+  | [], kvs, hv => by
+    simp only [List.nil_append, removeAtSegs, remove]
+    exact AMap.erase_of_get?_none (get?_none_of_idx hv hl)
+  | p :: ps, kvs, hv => by
+    rw [List.cons_append, removeAtSegs_cons2 kvs p (by simp)]
+    cases hc : child kvs p with
+    | none => rfl
+    | some w =>
+      cases w with
+      | leaf _ => rfl
+      | list _ => rfl
+      | cont c =>
+        simp only
+        rw [removeAtSegs_idx_last hl ps c (child_valid hv hc), add_put_back hv.sorted hc]
+
+theorem onCont_noncont (g : AMap Node → AMap Node) (w : Node) (hw : ∀ c, w ≠ .cont c) : onCont g w = w := by
+  cases w with
+  | cont c => exact absurd rfl (hw c)
+  | leaf _ => rfl
+  | list _ => rfl
+
+/-- a remove path whose last component is a plain key: the key is deleted in the container at the
+    parent path -/
+theorem removeAtSegs_key_last (k : String) : ∀ (ps : List String) (kvs : AMap Node),
+    (Node.cont kvs).Valid →
+      Node.cont (removeAtSegs kvs (ps ++ [k])) = updN (onCont fun m => AMap.erase m k) (.cont kvs) (toSteps ps)
+  | [], kvs, _ => by simp [removeAtSegs, remove, toSteps, updN, onCont]
+  | p :: ps, kvs, hv => by
+    rw [List.cons_append, removeAtSegs_cons2 kvs p (by simp)]
+    have := comp_cont_updN (f := onCont fun m => AMap.erase m k) kvs hv.sorted p (toSteps ps)
+      (fun c' => removeAtSegs c' (ps ++ [k]))
+      (fun c' hc => removeAtSegs_key_last k ps c' (child_valid hv hc))
+      (by
+        intro w hw
+        cases ps with
+        | nil => simpa [toSteps, updN] using onCont_noncont _ w hw
+        | cons q ps => exact updN_key_noncont (keyHead_toSteps _) (toSteps_ne_nil (by simp)) w hw)
+    have e : toSteps (p :: ps) = segOfComp p ++ toSteps ps := by simp [toSteps]
+    rw [e, ← this]
+
+theorem segBase_of_idx_nil {c : String} (h : segIdx c = []) : segBase c = c := by
+  have : parseSeg c = (segBase c, []) := by rw [← h]; rfl
+  exact parseSeg_nil_base this
+
+/-- stage 1 for `removeAtSegs` (ancestorOf(create=false) + Remove) -/
+theorem removeAtSegs_removeN (cs : List String) (kvs : AMap Node) (hv : (Node.cont kvs).Valid) (hne : cs ≠ []) :
+    Node.cont (removeAtSegs kvs cs) = removeN (.cont kvs) (toSteps cs) := by
+  rcases List.eq_nil_or_concat cs with h | ⟨ps, last, rfl⟩
+  · exact absurd h hne
+  · rw [List.concat_eq_append] at *
+    rw [toSteps_append, toSteps_cons, toSteps_nil, List.append_nil]
+    rcases List.eq_nil_or_concat (segIdx last) with hi | ⟨is, j, hi⟩
+    · rw [hi, List.map_nil, segBase_of_idx_nil hi]
+      unfold removeN
+      rw [show (toSteps ps ++ [PSeg.key last]).getLast? = some (PSeg.key last) by simp]
+      simp only [List.dropLast_concat]
+      exact removeAtSegs_key_last last ps kvs hv
+    · have hl : segIdx last ≠ [] := by rw [hi]; simp
+      rw [removeAtSegs_idx_last hl ps kvs hv, hi]
+      unfold removeN
+      rw [show (toSteps ps ++ PSeg.key (segBase last) :: List.map PSeg.idx (is.concat j)).getLast? =
+        some (PSeg.idx j) by
+          have e : toSteps ps ++ PSeg.key (segBase last) :: List.map PSeg.idx (is.concat j) =
+              (toSteps ps ++ PSeg.key (segBase last) :: List.map PSeg.idx is) ++ [PSeg.idx j] := by simp
+          rw [e, List.getLast?_concat]]
+
+/-! ### lookup -/
+
+theorem getN_idx : ∀ (is : List Nat) (c : Node) (r : List PSeg),
+    getN c (is.map .idx ++ r) = match walkIdx (some c) is with
+      | some w => getN w r
+      | none => none
+  | [], c, r => by simp [walkIdx]
+  | i :: is, .leaf _, r => by simp [getN, walkIdx]
+  | i :: is, .cont _, r => by simp [getN, walkIdx]
+  | i :: is, .list xs, r => by
+    simp only [List.map_cons, List.cons_append, getN, walkIdx]
+    cases xs[i]? with
+    | none => simp [walkIdx_none]
+    | some x => exact getN_idx is x r
+
+theorem comp_getN (kvs : AMap Node) (p : String) (r : List PSeg) :
+    getN (.cont kvs) (segOfComp p ++ r) = match child kvs p with
+      | some w => getN w r
+      | none => none := by
+  rw [segOfComp_eq, List.cons_append, child_eq_walk]
+  simp only [getN]
+  cases AMap.get? kvs (segBase p) with
+  | none => simp [walkIdx_none]
+  | some c => exact getN_idx _ c r
+
+theorem getN_key_noncont {r : List PSeg} (hk : KeyHead r) (hne : r ≠ []) (w : Node)
+    (hw : ∀ c, w ≠ .cont c) : getN w r = none := by
+  cases r with
+  | nil => exact absurd rfl hne
+  | cons s r =>
+    cases s with
+    | idx i => exact absurd hk (by simp [KeyHead])
+    | key k =>
+      cases w with
+      | cont c => exact absurd rfl (hw c)
+      | leaf _ => simp [getN]
+      | list _ => simp [getN]
+
+/-- stage 1 for `lookupSegs` (Lookup) -/
+theorem lookupSegs_getN : ∀ (cs : List String) (kvs : AMap Node), cs ≠ [] →
+    lookupSegs kvs cs = getN (.cont kvs) (toSteps cs)
+  | [], _, h => absurd rfl h
+  | [c], kvs, _ => by
+    have := comp_getN kvs c []
+    simp only [List.append_nil] at this
+    simp only [lookupSegs, toSteps, List.flatMap_cons, List.flatMap_nil, List.append_nil]
+    rw [this]
+    cases child kvs c <;> simp [getN]
+  | c :: d :: ds, kvs, _ => by
+    have e : toSteps (c :: d :: ds) = segOfComp c ++ toSteps (d :: ds) := by simp [toSteps]
+    rw [e, comp_getN]
+    simp only [lookupSegs]
+    cases child kvs c with
+    | none => rfl
+    | some w =>
+      cases w with
+      | cont c' => exact lookupSegs_getN (d :: ds) c' (by simp)
+      | leaf _ => exact (getN_key_noncont (keyHead_toSteps _) (toSteps_ne_nil (by simp)) _ (by simp)).symm
+      | list _ => exact (getN_key_noncont (keyHead_toSteps _) (toSteps_ne_nil (by simp)) _ (by simp)).symm
+
 end Ytk
